@@ -41,6 +41,18 @@ def instr_text(ins):
         return "send /%s in %d" % (ins["target"], ins["v"])
     if i == "get":
         return "get %s" % ins["lane"]
+    if i == "tv":
+        return "tv %s %d" % (ins["lane"], ins["v"])
+    if i == "te":
+        return "te %s %d %d" % (ins["lane"], ins["key"], ins["v"])
+    if i == "ter":
+        return "ter %s %d" % (ins["lane"], ins["key"])
+    if i == "rmap":
+        return "rmap %s %d %d" % (ins["lane"], ins["key"], ins["v"])
+    if i == "later":
+        return "later %d %s" % (ins["ms"], instr_text(ins["then"]))
+    if i == "susp":
+        return "susp %s" % instr_text(ins["then"])
     raise ValueError(ins)
 
 
@@ -58,6 +70,10 @@ def body_of(act):
         return "@take(%d)" % act["n"]
     if m == "drop":
         return "@drop(%d)" % act["n"]
+    if m == "badv":
+        return '"x"'
+    if m == "badm":
+        return "@bogus"
     if m == "prog":
         text = "; ".join(instr_text(x) for x in act["prog"]) + "; tag %s" % act.get("tag", 0)
         return '"%s"' % text
@@ -324,6 +340,7 @@ def proj_map(log, mlanes, keys=(1, 2, 3)):
     out = [{"e": "reset"}]
     first_start = True
     unsettled = False
+    deferred = 0          # instructions waiting for a timer / suspended: they may run at any later moment
     for e in log:
         k = e["e"]
         if k == "settled":
@@ -331,7 +348,12 @@ def proj_map(log, mlanes, keys=(1, 2, 3)):
             continue
         if k == "req" and e.get("ns"):
             unsettled = True
+        if k == "cmdh":
+            deferred += len(re.findall(r"(?:^|; *)(?:later|susp) ", e.get("v", "")))
+        if k == "deferred":
+            deferred = max(0, deferred - 1)
         if k == "start":
+            deferred = 0
             if not first_start:
                 maps = {}
                 for l in mlanes:
@@ -360,7 +382,7 @@ def proj_map(log, mlanes, keys=(1, 2, 3)):
                 out.append({"e": "req", "r": e["r"], "lane": e["lane"], "op": e["op"]})
             else:
                 m = _TD.match(e.get("body", "").strip())
-                if m and not unsettled:
+                if m and not unsettled and deferred == 0:
                     out.append({"e": "td", "lane": e["lane"], "m": m.group(1), "n": int(m.group(2))})
                 else:
                     out.append({"e": "mark"})
